@@ -168,6 +168,13 @@ func init() {
 		},
 		Case:    c04Case,
 		CaseCPU: 10,
+		ExhaustiveSubspaces: func(tier string) []string {
+			out := []string{"every single schema fault (12 kinds) at every JSON path of the four representative documents"}
+			if tier == "thorough" {
+				out = append(out, "every byte-prefix truncation of the representative documents")
+			}
+			return out
+		},
 	})
 }
 
